@@ -6,4 +6,3 @@ CONSTANTS
   NInst = 2
   Footprints <- FpDesign
 INVARIANTS TypeOK NoRace Deterministic
-PROPERTIES Finishes
